@@ -479,7 +479,7 @@ Section Ops.
     - destruct (code_has_body st).
       + destruct bd as [b|t].
         * intros H. injection H as <-. apply F.
-        * destruct (if truthy (snd (mk_ct c a true)) then snd (mk_ct c a true) else charset_of (fst (mk_ct c a true)));
+        * destruct (if truthy (charset_of (fst (mk_ct c a true))) then charset_of (fst (mk_ct c a true)) else snd (mk_ct c a true));
             [|discriminate].
           destruct (encode s t); [|discriminate]. intros H. injection H as <-. apply F.
       + intros H. injection H as <-. apply inv_no_cl. apply Z.
